@@ -165,7 +165,8 @@ func runC15(w *World, r *Report) {
 	r.Min("R3", 6)
 	r.Min("R4", 5)
 	r.Min("R5", 10)
-	r.Min("R6", 4)
+	c15RunnerHelpers(w, r)
+	r.Min("R6", 6)
 }
 
 func c15Converge(w *World, r *Report) {
@@ -473,3 +474,41 @@ func ReturnAltsErr(fn *ssa.Function, a RetAlt) ssa.Value {
 // np: access path with parameters that were spilled to locals (struct-typed
 // value parameters) named like parameters.
 func np(v ssa.Value) string { return strings.ReplaceAll(Path(v), "local:", "param:") }
+
+// c15RunnerHelpers: (a) NormalizeURL always answers from the tree's lookup - a
+// failed insert is logged, it does not short-circuit to the raw URL (the key
+// would then depend on which insert failed in which batch); (b) Run keeps the
+// combined aggregation in memory when writing the state file fails, so the
+// next successful flush contains the batch.
+func c15RunnerHelpers(w *World, r *Report) {
+	const pkgAggCommon = "lunar/aggregation-plugin/common"
+	if nu := w.Fn(pkgAggCommon, "NormalizeURL"); nu == nil {
+		r.Undec("R6", "NormalizeURL", token.NoPos, "function not found")
+	} else {
+		lk := CallsIn(nu, false, "URLTreeI).Lookup", "SimpleURLTreeI).Lookup")
+		ok := len(lk) == 1
+		if ok {
+			for _, alt := range ReturnAlts(nu, 0) {
+				if !domInstr(lk[0], alt.Ret) {
+					ok = false
+				}
+			}
+		}
+		r.Check(ok, "R6", "NormalizeURL/every-answer-comes-after-the-lookup", nu.Pos(), "every return of NormalizeURL is preceded by the tree lookup (an insert error does not bypass normalisation)")
+	}
+	if run := w.Fn(pkgDisc, "Run"); run == nil {
+		r.Undec("R6", "discovery.Run", token.NoPos, "function not found")
+	} else {
+		st := 0
+		Instrs(run, func(in ssa.Instruction) {
+			if s, ok := in.(*ssa.Store); ok {
+				if fa, ok := s.Addr.(*ssa.FieldAddr); ok && fieldName(fa.X.Type(), fa.Field) == "aggregation" {
+					if _, sn := namedOf(fa.X.Type()); sn == "State" {
+						st++
+					}
+				}
+			}
+		})
+		r.Check(st == 0, "R6", "Run/does-not-roll-back-the-in-memory-aggregation", run.Pos(), "Run never assigns state.aggregation itself (%d stores): UpdateAggregation keeps the combined value in memory even when the file write fails, and the next flush persists it", st)
+	}
+}
